@@ -17,7 +17,8 @@ VARIABLES l, m
 mvars == <<l, m>>
 
 NoX == [s |-> "", kind |-> "", reqs |-> {}, rids |-> {}, from |-> -1, leid |-> "", stream |-> "?", status |-> 0, sse |-> FALSE,
-        n |-> 0, cut |-> FALSE, ended |-> FALSE, mayConflict |-> FALSE, known |-> FALSE]
+        n |-> 0, cut |-> FALSE, ended |-> FALSE, mayConflict |-> FALSE, known |-> FALSE,
+        purged |-> FALSE]     \* the store reported that the requested events were purged (its contract, see C20)
 
 M0 == [store |-> FALSE, json |-> FALSE, stateless |-> FALSE,
        sid   |-> <<>>,     \* session name -> real session id
@@ -41,7 +42,7 @@ ReqsOf(xr) == IF xr.kind = "get" THEN (IF xr.stream = "" THEN {} ELSE Own(xr.s, 
 RidsOf(xr) == IF xr.kind = "get" THEN (IF xr.stream = "" THEN {} ELSE OwnId(xr.s, xr.stream)) ELSE xr.rids
 Standalone(xr) == xr.kind = "get" /\ xr.stream = ""
 \* C08's scope
-Scope(xr) == m.store /\ ~m.stateless /\ xr.sse /\ xr.kind \in {"init", "call", "get"}
+Scope(xr) == m.store /\ ~m.stateless /\ xr.sse /\ xr.kind \in {"init", "sub", "call", "get"}
 TagOf(e) == IF e.kind = "prime" THEN "prime" ELSE e.tag
 Finished(s, t) == \E r \in Own(s, t) : \E i \in DOMAIN Log(s, t) : Log(s, t)[i] = s \o "." \o r \o ".resp"
 
@@ -49,7 +50,7 @@ MInit == l = 1 /\ m = M0 /\ MarkInit
 
 OnBegin(e) ==
   LET strm == IF e.kind = "get" THEN e.stream ELSE "?"
-      busy == \E y \in DOMAIN m.xs : m.xs[y].s = e.s /\ m.xs[y].stream = strm /\ ~m.xs[y].ended /\ m.xs[y].kind \in {"init", "call", "get"}
+      busy == \E y \in DOMAIN m.xs : m.xs[y].s = e.s /\ m.xs[y].stream = strm /\ ~m.xs[y].ended /\ m.xs[y].kind \in {"init", "sub", "call", "get"}
   IN m' = [m EXCEPT !.xs = Put(m.xs, e.x, [NoX EXCEPT !.s = e.s, !.kind = e.kind, !.reqs = AsSet(e.reqs), !.rids = AsSet(e.rids), !.from = e.lidx,
                                                        !.leid = e.leid, !.stream = strm, !.mayConflict = busy, !.known = TRUE])]
 
@@ -70,7 +71,7 @@ OnHdr(e) ==
   LET xr == X(e.x) IN
   /\ m' = [m EXCEPT !.xs = Put(m.xs, e.x, [xr EXCEPT !.status = e.status, !.sse = (e.ctype = "sse")])]
   \* a resumption from an id issued before is served unless another exchange may still hold the stream
-  /\ IF xr.kind = "get" /\ m.store /\ ~m.stateless /\ xr.s \notin m.dead /\ ~xr.mayConflict /\ ~xr.cut /\ ~m.cleanup
+  /\ IF xr.kind = "get" /\ m.store /\ ~m.stateless /\ xr.s \notin m.dead /\ ~xr.mayConflict /\ ~xr.cut /\ ~m.cleanup /\ ~xr.purged
      THEN IF xr.stream # "" /\ Finished(xr.s, xr.stream)
           THEN Check(l, "C08.FinalObtainable", e.status = 200)
           ELSE Check(l, "C08.Resumable", e.status = 200)
@@ -82,7 +83,7 @@ OnEv(e) ==
       lg == Log(xr.s, xr.stream)
       pos == xr.from + j + 1                      \* 1-based position in the store log
       idk == <<xr.s, e.stream, e.idx>>
-      msg == e.kind \in {"resp", "notif", "sreq"}
+      msg == e.kind \in {"resp", "notif", "sreq", "bcast"}
   IN
   /\ m' = [m EXCEPT !.xs = Put(m.xs, e.x, [xr EXCEPT !.n = j]),
                     !.ids = IF e.idx >= 0 /\ idk \notin DOMAIN m.ids THEN Put(m.ids, idk, TagOf(e)) ELSE @]
@@ -96,8 +97,12 @@ OnEv(e) ==
      ELSE TRUE
   \* ---- C10
   /\ IF msg /\ e.tag # "" /\ ~m.cleanup
-     THEN /\ Check(l, "C10.NoCrossSession", e.os = xr.s)
-          /\ IF e.kind = "resp"
+     THEN /\ Check(l, "C10.NoCrossSession", e.kind = "bcast" \/ e.os = xr.s)
+          /\ IF e.kind = "bcast"
+             \* a broadcast (resource updated) reaches every subscribed session; for each receiver it is a
+             \* message issued outside any of its requests
+             THEN Check(l, "C10.NestedOnStandalone", Standalone(xr))
+             ELSE IF e.kind = "resp"
              THEN Check(l, "C10.ResponseOnOwnExchange", e.os = xr.s /\ e.or \in ReqsOf(xr))
              ELSE IF e.or = "sa" \/ m.json
                   THEN Check(l, "C10.NestedOnStandalone", e.os = xr.s /\ Standalone(xr))
@@ -159,6 +164,7 @@ Step(e) ==
     [] e.ev = "h.start"  -> OnHStart(e)
     [] e.ev = "h.end"    -> m' = [m EXCEPT !.rets = IF e.how = "ret" THEN @ \cup {<<e.s, e.r>>} ELSE @]
     [] e.ev = "quiesce"  -> OnQuiesce(e)
+    [] e.ev = "st.after" -> m' = IF e.err /\ e.x \in DOMAIN m.xs THEN [m EXCEPT !.xs = Put(m.xs, e.x, [X(e.x) EXCEPT !.purged = TRUE])] ELSE m
     [] e.ev = "panic"    -> m' = m /\ Fail(l, "C08.NoPanic") /\ Fail(l, "C10.NoPanic")
     [] e.ev = "setup.error" -> m' = m /\ Fail(l, "X.Setup")
     [] e.ev = "settle.timeout" -> m' = m /\ Fail(l, "X.Settle")
